@@ -114,15 +114,21 @@ def monitor(am, engine, cx, events, snaps):
     active = set()
     act_no = {}
     count = {}
-    spans = {}          # state -> [(entered, left)] of its finished activations
-    for o in log:
+    spans = {}          # state -> [(entered, start of the event during which it was left)] of its finished activations
+    cur_begin = 0
+    for i_, o in enumerate(log):
+        if o[0] == "begin":
+            # the clock stamp of an event follows its `begin` record
+            cur_begin = log[i_ + 1][1] if i_ + 1 < len(log) and log[i_ + 1][0] == "clock" else now
         if o[0] == "clock":
             now = o[1]
         elif o[0] == "enter":
             active.add(o[1]); entered_at[o[1]] = now; act_no[o[1]] = act_no.get(o[1], 0) + 1
         elif o[0] == "leave":
             active.discard(o[1])
-            spans.setdefault(o[1], []).append((entered_at.get(o[1], 0), now))
+            # (an exit cancels the state's timers BEFORE its exit actions run: what matters is when the leaving event started,
+            #  not when a slow exit action let the state finally leave the configuration)
+            spans.setdefault(o[1], []).append((entered_at.get(o[1], 0), cur_begin))
         elif o[0] == "trans" and o[1] in delay_of:
             t = tmap[o[1]]
             # (the source may have been left and re-entered by this very transition: look at the activation before it)
